@@ -893,7 +893,14 @@ def report_failure(pid, f, cfg):
     base = {"property": pid, "label": f["label"], "unit": f["unit"], "function": f["fn"], "kind_of_obligation": f["kind"],
             "repo_source": f["src"], "verifier": "verus", "verifier_output": f["rendered"]}
     # 1. Kani counterexample for loop-free contracts
-    harnesses = cfg.get("kani_for", {}).get(f["fn"] or "", [])
+    harnesses = list(cfg.get("kani_for", {}).get(f["fn"] or "", []))
+    # try the harness of the variant the failed clause talks about first
+    for key in ("iceberg", "reserve", "replenish"):
+        if key in f["label"]:
+            pref = "match_against_reserve" if key != "iceberg" else "match_against_iceberg"
+            if pref in harnesses:
+                harnesses.remove(pref)
+                harnesses.insert(0, pref)
     for h in harnesses:
         kr = kani_run(h, playback=True)
         if kr["status"] == "FAILED" and kr["vecs"] and h in KANI_INPUTS:
